@@ -17,6 +17,9 @@ sys.path.insert(0, os.path.dirname(os.path.abspath(__file__)))
 import core  # noqa: E402
 
 
+LEVELS = {'C03': 'translation_validation', 'C04': 'translation_validation', 'C17': 'translation_validation'}
+
+
 def main():
     ap = argparse.ArgumentParser()
     ap.add_argument('prop')
@@ -129,7 +132,7 @@ def main():
         rc = 1
 
     ev = core.write_evidence(prop, tier, seed, b, rep, violations,
-                             trusted_extra=getattr(mod, 'TRUSTED', None))
+                             trusted_extra=getattr(mod, 'TRUSTED', None), level=LEVELS.get(prop, 'proof'))
     print('[%s] %s tier=%s evaluations=%d nontrivial=%d impl_traces=%d disagreements=%d oracle_failures=%d (new %d) wall=%.1fs evidence=%s'
           % (prop, 'FAIL' if rc else 'ok', tier, rep.evaluations, len(rep.nontrivial), rep.impl_traces,
              len(rep.disagreements), len(rep.oracle_failures), len(new_fail), time.time() - t0, ev))
